@@ -66,7 +66,14 @@ class ConcRun:
         start.set()
         for t in ths:
             t.join()
-        time.sleep(0.05)
+        # every client has closed its socket: let the event loop make full passes so that it has seen the EOFs
+        try:
+            it0 = int(self.server.ctl.cmd('ITER'))
+            deadline = time.monotonic() + 3.0
+            while time.monotonic() < deadline and int(self.server.ctl.cmd('ITER')) < it0 + 3:
+                time.sleep(0.001)
+        except (OSError, ValueError, AttributeError):
+            pass
         log = self.server.ctl.drain() if self.server.alive() else []
         self.server.ctl.cmd('LOGOFF') if self.server.alive() else None
         return self.merge(log)
@@ -126,4 +133,5 @@ class ConcRun:
                                  'r': resp.to_json(rec['r']), 't0': rec['t0'], 't1': rec['t1']})
         for ci in sorted(opened):
             self.trace.emit({'k': 'close', 'c': ci})
+            self.trace.emit({'k': 'gone', 'c': ci})
         return consistent
